@@ -370,7 +370,14 @@ class Printer:
                     out.append(kw('and'))
                 if source[0] in ('group', 'location'):
                     out.append(kw(source[0]))
-                self.name_operand(source[1])
+                if source[1][0] == 'var' and self.layout.pick(
+                        self.layout.brace_simple):
+                    # an element of a light list is a value position
+                    out.append(mark('{'))
+                    self.name_operand(source[1])
+                    out.append(mark('}'))
+                else:
+                    self.name_operand(source[1])
             out.append(kw('as'))
             out.append((spec[2], 'name'))
             self.with_spec(spec[3])
